@@ -102,6 +102,33 @@ Theorem C05_propagate_model : forall fetch_ok,
 Proof. exact propagate_model. Qed.
 Print Assumptions C05_propagate_model.
 
+(* One HandleEvents(s, e) call over a node that records what it is asked (Model/C05.v, reads_ok =
+   the judge of those cases): the handlers as modelled - one read of exactly the range they were
+   given, an error iff some read of the call failed - satisfy it for every range and every fault ... *)
+Theorem C05_reads_model : forall s e fired,
+  reads_ok s e fired (handler_asks s e) (handler_returns_err (negb fired)) = true.
+Proof. exact reads_model. Qed.
+Print Assumptions C05_reads_model.
+
+(* ... and it says, of ANY observed call: a read the node could not serve - whichever of the call's
+   reads it was - is reported as an error, and a call that reports the range as handled has asked
+   the node for every block of the range (so `OHandle k s e true` in the traces above really stands
+   for blocks that were read: reversed, empty or shortened bounds do not count). *)
+Theorem C05_reads_ok_sound : forall s e fired asked err,
+  reads_ok s e fired asked err = true ->
+  (fired = true -> err = true) /\
+  (err = false -> forall b, s <= b <= e -> exists a c, In (a, c) asked /\ a <= b <= c).
+Proof. exact reads_ok_sound. Qed.
+Print Assumptions C05_reads_ok_sound.
+
+(* Non-vacuity: the judge accepts an honest call, rejects swapped bounds reported as success and a
+   failed read reported as success. *)
+Example C05_reads_nonvacuous :
+  reads_ok 10 14 false [(10, 14)] false = true /\ reads_ok 10 14 true [(10, 14)] true = true /\
+  reads_ok 10 14 false [(14, 10)] false = false /\ reads_ok 10 14 true [(10, 14)] false = false /\
+  reads_ok 10 14 false [(10, 12); (13, 14)] false = true /\ reads_ok 10 14 false [(10, 13)] false = false.
+Proof. vm_compute. repeat split. Qed.
+
 (* The wiring Bitcoin had before the repair (NewBtcChain without a start block: the listener gets
    nil and starts at the head) violates the specification: stored cursor 50, head 100. *)
 Theorem C05_old_btc_wiring_refuted :
